@@ -103,6 +103,7 @@ func C05(ctx *core.Ctx, r *core.Report) {
 	c05Levels(ctx, r)
 	c05FormatCoverage(ctx, r)
 	c05NoCrash(ctx, r)
+	c05MinMax(ctx, r)
 }
 
 // c05Installed: the field constraint is installed.
@@ -358,4 +359,36 @@ func c05NoCrash(ctx *core.Ctx, r *core.Report) {
 	if len(sites) < 3 {
 		r.Fatalf("restriction-check-cannot-crash examined %d sites; the reachable set collapsed", len(sites))
 	}
+}
+
+// c05MinMax: the typestate behind the triage of the RangeNumber getters: every
+// call of getInt64/getUnit64/getFloat64 in RangeNumber.Compare is dominated by
+// the tests that return for the 'min' and 'max' keywords.
+func c05MinMax(ctx *core.Ctx, r *core.Report) {
+	cmp := ctx.Method("meta", "RangeNumber", "Compare")
+	if cmp == nil {
+		r.Fatalf("anchor meta.RangeNumber.Compare not found")
+		return
+	}
+	n := 0
+	for _, g := range []string{"getInt64", "getUnit64", "getFloat64"} {
+		callee := ctx.Method("meta", "RangeNumber", g)
+		if callee == nil {
+			r.Fatalf("anchor meta.RangeNumber.%s not found", g)
+			continue
+		}
+		for _, c := range callsStatic(cmp, callee, true) {
+			n++
+			seen := map[string]bool{}
+			for _, pc := range core.PathConds(c.Block()) {
+				f := condFieldName(pc.V)
+				if (f == "isMin" || f == "isMax") && !pc.True {
+					seen[f] = true
+				}
+			}
+			r.Ob("minmax-handled", "meta.RangeNumber.Compare→"+g, ctx.Pos(c.Pos()), seen["isMin"] && seen["isMax"],
+				"a numeric getter of a range bound is reachable for the 'min'/'max' keywords, for which it panics (\"invalid number range comparison\")")
+		}
+	}
+	r.Floor("minmax-handled", n, 3)
 }
